@@ -147,6 +147,7 @@ def replay(job):
     steps = []
     nops = len(beh['ops'])
     for oi, o in enumerate(beh['ops']):
+        o = dict(o, exc='', depth=0)
         h, op, t, new = o['h'], o['op'], o['t'], o['new']
         acc = [[], []]
         try:
@@ -230,6 +231,64 @@ def replay(job):
     return {'steps': steps, 'grammar': gname, 'behaviour': beh}
 
 
+# ---- forks of a parser whose value stack holds a deep tree (left recursion over a long input) ------------------------------
+def _iter_digest(ip):
+    # the state of a handle without recursion: state stack, and the value stack walked with an explicit stack
+    import hashlib as _h
+    from lark import Tree, Token
+    st = ip.parser_state
+    h = _h.sha1(repr(list(st.state_stack)).encode())
+    todo = list(reversed(st.value_stack))
+    while todo:
+        v = todo.pop()
+        if isinstance(v, Tree):
+            h.update(('T:%s:%d;' % (v.data, len(v.children))).encode())
+            todo.extend(reversed(v.children))
+        elif isinstance(v, Token):
+            h.update(('K:%s:%s:%s;' % (v.type, v.value, v.start_pos)).encode())
+        elif isinstance(v, list):
+            h.update(('L:%d;' % len(v)).encode())
+            todo.extend(reversed(v))
+        else:
+            h.update(repr(v).encode())
+    return h.hexdigest()[:16]
+
+
+def deep_case(n):
+    import logging
+    logging.disable(logging.CRITICAL)
+    from lark import Lark
+    _CUR['types'], _CUR['chars'] = None, {}
+    p = Lark('start: start A | B\nA: "a"\nB: "b"\n', parser='lalr')
+    ip = p.parse_interactive('')
+    hist, steps = [], []
+
+    def fresh(hh):
+        return _iter_digest(feed_hist(p.parse_interactive(''), hh))
+    for i in range(n + 1):
+        t = 'b' if i == 0 else 'a'
+        hist.append(t)
+        ip.feed_token(mk_token(t, i))
+        steps.append({'o': {'h': 1, 'op': 'feed', 't': t, 'new': 0, 'exc': '', 'depth': i}, 'hs': [[1, list(hist), 'x', 'x']], 'acc': [[], []], 'last': False, 'eof': []})
+    handles = {1: (ip, list(hist))}
+    for op, new in (('copy', 2), ('as_immutable', 3)):
+        o = {'h': 1, 'op': op, 't': '', 'new': new, 'exc': '', 'depth': n}
+        try:
+            handles[new] = (getattr(ip, op)(), list(hist))
+        except RecursionError:
+            o['exc'] = 'RecursionError'
+            steps.append({'o': o, 'hs': [[1, list(hist), 'x', 'x']], 'acc': [[], []], 'last': False, 'eof': []})
+            break
+        steps.append({'o': o, 'hs': [[k, hh, _iter_digest(x), fresh(hh)] for k, (x, hh) in sorted(handles.items())], 'acc': [[], []], 'last': False, 'eof': []})
+    else:
+        # the original moves on; the forks must stay where they were
+        ip.feed_token(mk_token('a', n + 1))
+        handles[1] = (ip, hist + ['a'])
+        steps.append({'o': {'h': 1, 'op': 'feed', 't': 'a', 'new': 0, 'exc': '', 'depth': n + 1},
+                      'hs': [[k, hh, _iter_digest(x), fresh(hh)] for k, (x, hh) in sorted(handles.items())], 'acc': [[], []], 'last': False, 'eof': []})
+    return {'steps': steps, 'grammar': 'left-deep', 'behaviour': {'deep': n}}
+
+
 # ---- resume_parse -------------------------------------------------------------------------------------------
 def resume_case(job):
     import logging
@@ -257,7 +316,7 @@ def resume_case(job):
         r2 = strip(p.parse(rest))
     except UnexpectedInput as e:
         r2 = 'ERR:' + type(e).__name__
-    o = {'h': 1, 'op': 'resume', 't': '', 'new': 0}
+    o = {'h': 1, 'op': 'resume', 't': '', 'new': 0, 'exc': '', 'depth': 0}
     return {'steps': [{'o': o, 'hs': [[1, [], hashlib.sha1(r.encode()).hexdigest()[:12], hashlib.sha1(r2.encode()).hexdigest()[:12]]],
                        'acc': [[], []], 'last': False, 'eof': []}],
             'grammar': gname, 'behaviour': {'resume': text, 'lexer': lexer, 'skipped': skipped}}
@@ -409,13 +468,13 @@ def judge(cases, ev, rep, tmp, name):
             raise C.MachineryFailure('TraceInteractive violation without VERDICT line')
         for v in sorted(set(tuple(x) for x in res.verdicts)):
             c = chunk[int(v[0]) - 1]
-            rep.violation({'property': PID, 'clause': v[2], 'step': int(v[1]), 'grammar_name': c['grammar'], 'grammar': dict(GRAMMARS, **_DEEP, **{k: v[:2] for k, v in _NAMED.items()})[c['grammar']][0],
-                           'options': {k: (v if k != 'import_paths' else 'vm.lark loader') for k, v in dict(GRAMMARS, **_DEEP, **{k: v[:2] for k, v in _NAMED.items()})[c['grammar']][1].items()}, 'behaviour': c['behaviour'], 'observed': c['steps'][int(v[1]) - 1]})
+            rep.violation({'property': PID, 'clause': v[2], 'step': int(v[1]), 'grammar_name': c['grammar'], 'grammar': dict(GRAMMARS, **_DEEP, **{k: v[:2] for k, v in _NAMED.items()}, **{'left-deep': ('start: start A | B', {})})[c['grammar']][0],
+                           'options': {k: (v if k != 'import_paths' else 'vm.lark loader') for k, v in dict(GRAMMARS, **_DEEP, **{k: v[:2] for k, v in _NAMED.items()}, **{'left-deep': ('', {})})[c['grammar']][1].items()}, 'behaviour': c['behaviour'], 'observed': c['steps'][int(v[1]) - 1]})
 
 
 def body(tier, seed, replay_file):
     ev = C.Evidence(PID, tier, seed)
-    rep = C.Reporter(PID, ev)
+    rep = C.Reporter(PID, ev, lambda fnd, case: fnd['match']['kind'] == 'deep-copy-recursion' and case.get('clause', '').endswith('-raised-RecursionError@deep-value-stack'))
     rng = random.Random(seed)
     tmp = C.scratch_dir('c13_')
     try:
@@ -424,6 +483,9 @@ def body(tier, seed, replay_file):
             if 'ilex' in case['behaviour']:
                 b = case['behaviour']
                 ilex_judge([ilex_replay((case['grammar_name'], b['text'], b['lexer'], b['ilex']))], ev, rep, tmp, 'replay')
+                return rep.finish()
+            if 'deep' in case['behaviour']:
+                judge([deep_case(case['behaviour']['deep'])], ev, rep, tmp, 'replay')
                 return rep.finish()
             if 'resume' in case['behaviour']:
                 got = resume_case((case['grammar_name'], case['behaviour']['lexer'], case['behaviour']['resume']))
@@ -480,6 +542,11 @@ def body(tier, seed, replay_file):
         ev.count('accepts_sweeps_on_merged_lookahead_grammars', len(dcases))
         ncases += len(dcases)
         judge(dcases, ev, rep, tmp, 'deep-accepts')
+        # forks at depth: copy() / as_immutable() of a parser that has read a long left-recursive list
+        deep = C.pmap(deep_case, [20, 60, 120, 180, 300, 500] if tier == 'quick' else [20, 60, 120, 180, 230, 300, 500, 900])
+        ev.count('deep_fork_histories', len(deep))
+        ncases += len(deep)
+        judge(deep, ev, rep, tmp, 'deep-forks')
         # resume_parse
         texts = set()
         for _ in range(C.scale(400 if tier == 'quick' else 4000)):
